@@ -13,7 +13,7 @@ from . import c10
 
 ID = 'C18'
 LEVEL = 'model_checking'
-RULE = ('corpus: every clause shape with 0..3 variables that occur only inside head structures x 0..4 body-only variables '
+RULE = ('(e) stack headroom: every corpus program compiled under every recursion limit from 3 below to 45 above the least limit under which it compiles at all (found by bisection): each compilation raises or returns exactly the ordinary output. corpus: every clause shape with 0..3 variables that occur only inside head structures x 0..4 body-only variables '
         'x 0..2 anonymous variables, heads in which 2..5 variables occur twice, the body trees with <= N operators in the C05 context, the repository\'s sample files, [for (b) and (d) also the body trees with N+1 operators over {! o fail}], and 11 programs that are rejected at different stages (syntax, leftover input, goal not callable, head name, too large, unsupported term - also in the middle of a clause whose variables have the names other programs use). '
         '(a) environment exploration of set-iteration order: the names set/frozenset are shadowed in the compiler modules by '
         'an order-controlled stand-in; every call is a choice point and EVERY permutation of its elements is explored at '
@@ -464,16 +464,92 @@ def run_sweep(acc, tier, order):
 
 
 # ---------------------------------------------------------------- plan / run
+# ---- (e) the stack that is left when the compiler is called ---------------------------------------
+# The same text and options give the same output however deep the caller's stack is: for every
+# program the smallest recursion limit T under which it compiles at all is found (bisection), and the
+# program is compiled under every limit T-3 .. T+45: each compilation raises or returns the baseline.
+HEADROOM_EXTRA = [('nest-10', 'p(a, b, f(c), [d], e, X) :- q(X), r(X, Y), s(Y, Z), t(Z), u(X, Z).\n'),
+                  ('nest-ite', 'p(a, b, X) :- q(X), ( r(X) -> s(X, Y), t(Y) ; u(X) ), \\+ v(X), w(a, X).\n'),
+                  ('nest-14', 'p(a, b, c, d, e, f) :- q1(X), q2(X), q3(X), q4(X), q5(X), q6(X), q7(X), q8(X).\n'),
+                  ('many-clauses', ''.join('k(%d, a%d).\n' % (i, i) for i in range(30)))]
+
+
+def _depth():
+    d, f = 0, sys._getframe()
+    while f is not None:
+        d += 1
+        f = f.f_back
+    return d
+
+
+def compile_under(text, limit):
+    old = sys.getrecursionlimit()
+    try:
+        sys.setrecursionlimit(limit)
+        return impl.compile_text(text)
+    except RecursionError:
+        return None
+    except Exception as e:  # noqa: BLE001 - a rejection (whatever the class) is not an output
+        return ('rejected', type(e).__name__)
+    finally:
+        sys.setrecursionlimit(old)
+
+
+def headroom_program(acc, idx, name, text):
+    base = compile_or_exc(text)
+    if not isinstance(base, str) or base.startswith('!!'):
+        return
+    here = _depth() + 8
+    lo, hi = here, here + 3000
+    if not isinstance(compile_under(text, hi), str):
+        return
+    while lo < hi:
+        mid = (lo + hi) // 2
+        if isinstance(compile_under(text, mid), str):
+            hi = mid
+        else:
+            lo = mid + 1
+    T = lo
+    for limit in range(max(here, T - 3), T + 46):
+        acc.n['evaluations'] += 1
+        acc.n['validated'] += 1
+        acc.n['transitions'] += 1
+        out = compile_under(text, limit)
+        if isinstance(out, str):
+            acc.n['nontrivial'] += 1
+            if out != base:
+                acc.violation('output-depends-on-the-stack-left-to-the-compiler', (5, idx, limit - T), {'headroom': [name, text, limit - here]},
+                              'program\n%s\ncompiled with %d frames of stack left (%d more than the least it needs) gives other code than with an ordinary stack:\n%s'
+                              % (text, limit - here, limit - T, first_diff(base, out)), key='headroom|%s|%d' % (name, limit - T))
+                return
+            acc.outcome(('headroom', 'same'))
+        else:
+            acc.outcome(('headroom', 'raises'))
+
+
+def run_headroom(spec):
+    _, tier, k, n = spec
+    acc = Acc()
+    for idx, (name, text) in enumerate(corpus(tier) + HEADROOM_EXTRA):
+        if idx % n == k:
+            headroom_program(acc, idx, name, text)
+    return acc
+
+
 NSH = 16
 
 
 def plan(tier):
     seeds = range(6 if tier == 'quick' else 16)
     # the longest shards first
-    return [('sweep', tier, o) for o in SWEEPS] + [('hist', tier, k, NSH) for k in range(NSH)] + [('seed', tier, s) for s in seeds] + [('env', tier, e) for e in ENVIRONMENTS] + [('set', tier, k, NSH) for k in range(NSH)]
+    return [('sweep', tier, o) for o in SWEEPS] + [('hist', tier, k, NSH) for k in range(NSH)] + [('seed', tier, s) for s in seeds] + [('env', tier, e) for e in ENVIRONMENTS] + [('set', tier, k, NSH) for k in range(NSH)] + [('headroom', tier, k, NSH) for k in range(NSH)]
 
 
 def run_shard(spec):
+    if spec[0] == 'headroom':
+        # in a child: compilations that die half-way must not leave anything in this worker
+        from ..runner import in_child
+        return in_child(run_headroom, spec, quiet=True)
     acc = Acc()
     if spec[0] == 'set':
         _, tier, k, n = spec
@@ -589,6 +665,9 @@ def run_fresh(text, opts=None):
 
 def replay(case):
     acc = Acc()
+    if 'headroom' in case:
+        headroom_program(acc, 0, case['headroom'][0], case['headroom'][1])
+        return [(sig, g['detail']) for sig, g in acc.groups.items()]
     if 'env' in case:
         acc = run_shard(('env', case['tier'], case['env']))
         return [(sig, g['detail']) for sig, g in acc.groups.items()]
